@@ -32,7 +32,7 @@ Kinds(f) == {"truncate", "unbalance"}
             \cup (IF HasInStream(f) THEN {"instream"} ELSE {})
             \cup (IF IsZip(f) THEN {"number", "dropmember", "dupmember", "corruptstream"} ELSE {})
             \cup (IF f = "html" THEN {"number"} ELSE {})
-PayloadDamage == {"cut", "cutsp", "drop"}     \* cut at the boundary / cut leaving one white-space character / one token removed
+PayloadDamage == {"cut", "cutsp", "drop"} \cup {"num=" \o v : v \in Numbers \cup {"900719925474099"}}   \* cut at the boundary / cut leaving one white-space character / one token removed / the number starting there replaced
 Param(k) == CASE k \in {"number", "field", "instream"} -> Numbers [] k = "retarget" -> Targets [] k = "payload" -> PayloadDamage [] OTHER -> {"-"}
 FaultSpace(f) == UNION {{[kind |-> k, site |-> s, param |-> p] : s \in 0..(K - 1), p \in Param(k)} : k \in Kinds(f)}
 
@@ -46,7 +46,9 @@ Damage == /\ Len(faults) < MaxFaults /\ calls = <<>>
 Outcomes == {"value", "error"}
 Call(entry, outcome) == /\ outcome \in Outcomes
                         /\ calls' = Append(calls, <<entry, outcome>>) /\ UNCHANGED <<fmt, faults>>
-Entries == {"Text", "ToMarkdown", "Chunks", "Document", "Fragments", "PageCount", "Analyze", "Lines", "IsCharacterLevel", "Detect"}
+Entries == {"Text", "ToMarkdown", "Chunks", "Document", "Fragments", "PageCount", "Analyze", "Lines", "IsCharacterLevel", "Detect",
+            \* the text modes and the remaining layout views (each has a page loop and a renderer of its own)
+            "PreserveLayout", "ByColumn", "JoinParagraphs", "ReadingOrder", "Paragraphs", "LayoutViews", "ExcludeHF", "ResolveDeep"}
 Next == Damage \/ (Len(calls) < 1 /\ \E e \in Entries, o \in Outcomes : Call(e, o))
 Spec == Init /\ [][Next]_vars
 AlwaysReturns == \A i \in 1..Len(calls) : calls[i][2] \in Outcomes
